@@ -1617,6 +1617,26 @@ def c19_sites(repo_root, tier):
                     bad.append(f"{qual}@{call.lineno}: key={k} does not select the computed key of the (item, key) pair")
     _ob(obs, "liquid2.builtin.filters.sorting_filters/site.sort-by-key-only", not bad and n_sorted >= 9,
         f"{n_sorted} sorted() calls: each orders by a key function (stable, no comparison of the items themselves); the key-less sort of plain values converts TypeError" if not bad else str(bad[:3]))
+    # text conversion of filter arguments goes through the Liquid string form: a data parameter is never re-bound to Python's
+    # str() of itself (nil would read 'None', true 'True', an array its Python repr)
+    from .sites_c05 import data_vars
+    bad = []
+    n_filters = 0
+    for m in repo.all_modules():
+        if ".filters." not in m.name:
+            continue
+        for qual, cls, fn, parent in function_defs(m):
+            if not (cls is None or fn.name == "__call__"):
+                continue
+            n_filters += 1
+            dv = data_vars(fn, True)
+            for n in own_nodes(fn):
+                if isinstance(n, ast.Assign) and len(n.targets) == 1 and isinstance(n.targets[0], ast.Name) and n.targets[0].id in dv \
+                        and isinstance(n.value, ast.Call) and isinstance(n.value.func, ast.Name) and n.value.func.id == "str" \
+                        and len(n.value.args) == 1 and isinstance(n.value.args[0], ast.Name) and n.value.args[0].id == n.targets[0].id:
+                    bad.append(f"{m.name}:{qual}: {ast.unparse(n)}")
+    _ob(obs, "liquid2.builtin.filters/site.liquid-string-form-of-arguments", not bad and n_filters >= 60,
+        f"{n_filters} filter callables: no argument is converted to text with Python's str()" if not bad else f"str() of a data argument: {bad[:4]}")
     _ob(obs, "liquid2.builtin.filters.find_filters:HasFilter.__call__/site.any-over-matches", ok, "has reduces any() over the match tests, not over the matching items (whose own truthiness is irrelevant)")
     return {"obligations": obs, "samples": [], "trusted": ["user __getitem__ is deterministic (the same lookup gives the same value in both forms)"], "functions": [],
             "assumptions": [], "not_covered": ["sort/uniq/compact/map/concat/slice laws, split/join, url and base64 inverses, strip/replace/remove: not under contract"]}
